@@ -193,10 +193,22 @@ PURE_BUILTINS = {
     "reversed": reversed, "enumerate": enumerate, "zip": zip, "range": range, "sum": sum, "any": any, "all": all, "abs": abs, "iter": iter,
     "next": next, "repr": repr, "divmod": divmod, "object": object, "slice": slice,
 }
+def _abs_only(fn):
+    """Path functions that consult the working directory only for relative paths: modelled for absolute arguments."""
+
+    def wrapped(*args, **kwargs):
+        if not all(isinstance(a, (str, PurePosixPath)) and str(a).startswith("/") for a in [*args, *kwargs.values()]):
+            raise Unknown("relative path: depends on the working directory")
+        return fn(*[str(a) for a in args], **{k: str(v) for k, v in kwargs.items()})
+
+    return wrapped
+
+
 LIB_VALUES = {"os.sep": "/", "os.path.sep": "/", "os.curdir": ".", "os.extsep": ".", "os.altsep": None, "os.pardir": ".."}
 LIB_FUNCS = {
     "os.path.dirname": posixpath.dirname, "os.path.basename": posixpath.basename, "os.path.join": posixpath.join, "os.path.normpath": posixpath.normpath,
-    "os.path.split": posixpath.split, "os.path.splitext": posixpath.splitext, "os.path.relpath": None, "os.fspath": lambda p: str(p),
+    "os.path.split": posixpath.split, "os.path.splitext": posixpath.splitext, "os.path.relpath": _abs_only(posixpath.relpath), "os.path.commonpath": posixpath.commonpath,
+    "os.path.abspath": _abs_only(posixpath.normpath), "os.path.realpath": _abs_only(posixpath.normpath), "os.path.isabs": posixpath.isabs, "os.fspath": lambda p: str(p),
     "pathlib.Path": PurePosixPath, "pathlib.PurePath": PurePosixPath, "pathlib.PurePosixPath": PurePosixPath, "pathlib.PosixPath": PurePosixPath,
     "itertools.islice": itertools.islice, "itertools.chain": itertools.chain, "itertools.accumulate": None, "itertools.takewhile": None,
     "itertools.pairwise": itertools.pairwise, "itertools.repeat": itertools.repeat, "itertools.count": None,
@@ -1063,6 +1075,8 @@ class Evaluator:
         if isinstance(o, PurePosixPath):
             if attr in PATH_ATTRS or attr in PATH_METHODS:
                 return getattr(o, attr)
+            if attr in ("resolve", "absolute", "expanduser") and o.is_absolute():
+                return model(lambda *a, **k: PurePosixPath(posixpath.normpath(str(o))))  # the model file system has no symlinks
             raise Unknown(f"Path.{attr} (file system access is not evaluated)")
         if isinstance(o, (Fn, Bound, Closure, Partial)):
             if attr == "__name__" and isinstance(o, Fn):
